@@ -1389,6 +1389,123 @@ class Module:
         self.out.append("@[pygen] def insert (a : Model.BtArray.Arr) (index : Int) (value : Int) : Except PyErr Model.BtArray.Arr :=")
         self.out.append(indent(stmts(ins[2:]), 1)); self.out.append("")
 
+    # -- T18: what appending does to the timing ------------------------------------------------------------------------------------------
+    def translate_append_timing(self, cls: str, tag: str) -> None:
+        """T18: `append_timing(timing, other)` and `append_timestamps(timing, timestamps)` of one sample-interval strategy over the waveform
+        model's `WTiming` (mode, sample interval, timestamps) - the rules C10 states.
+
+        append_timing:      `if other._sample_interval_mode not in (M1, M2): raise <factory>()` / `!= M`;  `if timing._sample_interval !=
+                            other._sample_interval: warnings.warn(sample_interval_mismatch())`;  `assert …`;  `return timing|other`;
+                            `if len(timing._timestamps) == 0: return other` `elif len(other._timestamps) == 0: return timing` `else: return
+                            timing.__class__.create_with_irregular_interval(timing._timestamps + other._timestamps)`.
+        append_timestamps:  the try/except around `validate_unsupported_arg("timestamps", timestamps)` (re-raised with a note);  `if
+                            timestamps is None: raise TimingMismatchError(...)`;  the element type test (`datetime_type = …`, `if not
+                            all(isinstance(ts, datetime_type) …): raise TypeError`) as the Boolean `types_ok`;  `if len(timestamps) == 0:
+                            return timing` `else:` optional `timestamps = list(timestamps)` then `return
+                            timing.__class__.create_with_irregular_interval(timing._timestamps + timestamps)`."""
+        MODES = {"SampleIntervalMode.NONE": "Model.Wfm.TMode.none", "SampleIntervalMode.REGULAR": "Model.Wfm.TMode.regular", "SampleIntervalMode.IRREGULAR": "Model.Wfm.TMode.irregular"}
+        RAISES = {"create_sample_interval_mode_mismatch_error": "SampleIntervalModeMismatchError", "TimingMismatchError": "TimingMismatchError", "TypeError": "TypeError", "ValueError": "ValueError"}
+
+        def fail(msg, node):
+            raise Untranslatable(f"{cls}: {msg}", node, self.path)
+
+        def body_of(fn):
+            return [st for st in fn.body if not (isinstance(st, ast.Expr) and isinstance(st.value, ast.Constant))]
+
+        def err(st):
+            exc = st.exc
+            nm = ast.unparse(exc.func).split(".")[-1] if isinstance(exc, ast.Call) else None
+            if nm not in RAISES:
+                fail(f"raise of unknown error {ast.unparse(exc)[:60] if exc else ''}", st)
+            return f"Except.error PyErr.{RAISES[nm]}"
+
+        def mode_cond(e):
+            if isinstance(e, ast.Compare) and len(e.ops) == 1 and ast.unparse(e.left) == "other._sample_interval_mode":
+                r = e.comparators[0]
+                if isinstance(e.ops[0], ast.NotIn) and isinstance(r, ast.Tuple) and all(ast.unparse(x) in MODES for x in r.elts):
+                    return "¬ (" + " ∨ ".join(f"other.mode = {MODES[ast.unparse(x)]}" for x in r.elts) + ")"
+                if isinstance(e.ops[0], ast.NotEq) and ast.unparse(r) in MODES:
+                    return f"other.mode ≠ {MODES[ast.unparse(r)]}"
+                if isinstance(e.ops[0], ast.Eq) and ast.unparse(r) in MODES:
+                    return f"other.mode = {MODES[ast.unparse(r)]}"
+            return None
+        CREATE = "timing.__class__.create_with_irregular_interval("
+
+        def ret(e, ws):
+            src = ast.unparse(e)
+            if src in ("timing", "other"):
+                return f"Except.ok ({src}, {ws})"
+            if src == CREATE + "timing._timestamps + other._timestamps)":
+                return f"(Model.Wfm.createIrregular (timing.stamps ++ other.stamps)).map (fun t => (t, {ws}))"
+            fail(f"unsupported return value {src[:80]}", e)
+
+        def at_stmts(ss, ws):
+            if not ss:
+                fail("append_timing falls off the end", self.find_func(cls, "append_timing"))
+            st, rest = ss[0], ss[1:]
+            if isinstance(st, ast.Assert):
+                return at_stmts(rest, ws)
+            if isinstance(st, ast.Return):
+                return ret(st.value, ws)
+            if isinstance(st, ast.If):
+                mc = mode_cond(st.test)
+                if mc and not st.orelse and len(st.body) == 1 and isinstance(st.body[0], ast.Raise):
+                    return f"if {mc} then {err(st.body[0])} else\n" + at_stmts(rest, ws)
+                if ast.unparse(st.test) == "timing._sample_interval != other._sample_interval" and not st.orelse and len(st.body) == 1 \
+                        and ast.unparse(st.body[0]) == "warnings.warn(sample_interval_mismatch())":
+                    return "let ws : List Model.Wfm.Warning := if timing.interval ≠ other.interval then " + ws + " ++ [Model.Wfm.Warning.timingMismatch] else " + ws + "\n" + at_stmts(rest, "ws")
+                t = ast.unparse(st.test)
+                lens = {"len(timing._timestamps) == 0": "timing.stamps = []", "len(other._timestamps) == 0": "other.stamps = []"}
+                if t in lens and st.orelse:
+                    if rest:
+                        fail("statements after an if / else that returns", rest[0])
+                    return f"if {lens[t]} then\n{indent(at_stmts(st.body, ws), 1)}\nelse\n{indent(at_stmts(st.orelse, ws), 1)}"
+            fail(f"append_timing: unsupported statement {ast.unparse(st)[:80]}", st)
+        f_at = self.find_func(cls, "append_timing")
+        if [a.arg for a in f_at.args.args] != ["self", "timing", "other"]:
+            fail("append_timing: parameters", f_at)
+        self.out.append(f"/-- generated from `{cls}.append_timing`: (the new timing, the warnings emitted) -/")
+        self.out.append(f"@[pygen] def {tag}_append_timing (timing other : Model.Wfm.WTiming) : Except PyErr (Model.Wfm.WTiming × List Model.Wfm.Warning) :=")
+        self.out.append(indent(at_stmts(body_of(f_at), "[]"), 1)); self.out.append("")
+        # append_timestamps
+        f_ts = self.find_func(cls, "append_timestamps")
+        if [a.arg for a in f_ts.args.args] != ["self", "timing", "timestamps"]:
+            fail("append_timestamps: parameters", f_ts)
+
+        def ts_stmts(ss):
+            if not ss:
+                fail("append_timestamps falls off the end", f_ts)
+            st, rest = ss[0], ss[1:]
+            src = ast.unparse(st)
+            if isinstance(st, ast.Assert):
+                return ts_stmts(rest)
+            if isinstance(st, ast.Try) and len(st.body) == 1 and ast.unparse(st.body[0]) == "validate_unsupported_arg('timestamps', timestamps)" and len(st.handlers) == 1 \
+                    and isinstance(st.handlers[0].body[-1], ast.Raise) and st.handlers[0].body[-1].exc is None and not st.orelse and not st.finalbody:
+                return "if timestamps.isSome = true then Except.error PyErr.ValueError else\n" + ts_stmts(rest)
+            if isinstance(st, ast.If) and ast.unparse(st.test) == "timestamps is None" and not st.orelse and len(st.body) == 1 and isinstance(st.body[0], ast.Raise):
+                return f"match timestamps with\n| none => {err(st.body[0])}\n| some timestamps =>\n" + indent(ts_stmts(rest), 1)
+            if src.startswith("datetime_type = type(timing._timestamps[0]) if timing._timestamps else ANY_DATETIME_TUPLE"):
+                return ts_stmts(rest)
+            if isinstance(st, ast.If) and ast.unparse(st.test) == "not all((isinstance(ts, datetime_type) for ts in timestamps))" and not st.orelse \
+                    and len(st.body) == 1 and isinstance(st.body[0], ast.Raise):
+                return f"if ¬ (types_ok = true) then {err(st.body[0])} else\n" + ts_stmts(rest)
+            if isinstance(st, ast.If) and ast.unparse(st.test) == "len(timestamps) == 0" and st.orelse:
+                if rest:
+                    fail("statements after an if / else that returns", rest[0])
+                return f"if timestamps = [] then\n{indent(ts_stmts(st.body), 1)}\nelse\n{indent(ts_stmts(st.orelse), 1)}"
+            if src == "if not isinstance(timestamps, list):\n    timestamps = list(timestamps)":
+                return ts_stmts(rest)
+            if isinstance(st, ast.Return):
+                r = ast.unparse(st.value)
+                if r == "timing":
+                    return "Except.ok timing"
+                if r == CREATE + "timing._timestamps + timestamps)":
+                    return "Model.Wfm.createIrregular (timing.stamps ++ timestamps)"
+            fail(f"append_timestamps: unsupported statement {src[:80]}", st)
+        self.out.append(f"/-- generated from `{cls}.append_timestamps` (`types_ok`: every new timestamp has the type of the stored ones) -/")
+        self.out.append(f"@[pygen] def {tag}_append_timestamps (timing : Model.Wfm.WTiming) (timestamps : Option (List Int)) (types_ok : Bool) : Except PyErr Model.Wfm.WTiming :=")
+        self.out.append(indent(ts_stmts(body_of(f_ts)), 1)); self.out.append("")
+
     # -- T14: a dict-backed mapping with change notifications ----------------------------------------------------------------------
     def translate_dict_class(self, cls: str) -> None:
         """T14: `ExtendedPropertyDictionary` (nitypes/waveform/_extended_properties.py): a MutableMapping over `self._properties` whose
